@@ -203,7 +203,7 @@ C02_State(s) ==
 \*          (C13 does not speak about those; C12 does)
 \* nacc:    position -> number of accruals since its last claim (index resolution allowance)
 GhostInit == [unb |-> <<>>, red |-> <<>>, stall |-> FALSE, dep |-> <<>>, slashed |-> FALSE, k2 |-> NoCoins, stuck |-> NoCoins,
-              ent |-> <<>>, taint |-> {}, nacc |-> <<>>, prevEnd |-> -1, diverged |-> "", zeroed |-> {}, orphans |-> <<>>, eslack |-> <<>>]
+              ent |-> <<>>, taint |-> {}, nacc |-> <<>>, prevEnd |-> -1, diverged |-> "", zeroed |-> {}, orphans |-> <<>>, eslack |-> <<>>, k1 |-> NoCoins]
 LedgerOfState(s) ==
   LET xs == SortBy(UnbEntries(s), LAMBDA x : <<x[1][1], DelIdx(x[1][2]), x[2]>>)
   IN  [i \in DOMAIN xs |-> [d |-> s.unbQ[xs[i][1]][xs[i][2]].d, v |-> s.unbQ[xs[i][1]][xs[i][2]].v, a |-> s.unbQ[xs[i][1]][xs[i][2]].a,
@@ -331,7 +331,24 @@ GhostNext(gh, pre, rec, post, conforms) ==
       \* redelegations out of it)
       slashed2 == gh.slashed \/ (SlashValid(rec) /\ ValExists(pre, e.v)
                                  /\ (~IsEmptyMap(Info(pre, e.v).vshares) \/ \E i \in DOMAIN gh.red : gh.red[i].src = e.v /\ gh.red[i].due >= pre.now)
-                                 /\ \E w \in DOMAIN pre.vals : DOMAIN pre.vals[w].hist # {})
+                                 /\ ((\E w \in DOMAIN pre.vals : DOMAIN pre.vals[w].hist # {}) \/ (\E w \in DOMAIN post.vals : DOMAIN post.vals[w].hist # {})))
+      \* K1 budget: a slash raises the token value of positions (on the other validators, and of the co-delegators of a
+      \* redelegation destination) whose reward indices are still outstanding: each such position can now claim its outstanding
+      \* index times the value it gained, which nobody paid into the pool
+      k1add == IF ~(SlashValid(rec) /\ ValExists(pre, e.v)) THEN NoCoins
+               ELSE LET ks == {k \in DOMAIN pre.dels \cap DOMAIN post.dels : k[3] \in DOMAIN pre.assets \cap DOMAIN post.assets /\ k[2] \in DOMAIN pre.vals}
+                        \* (the callback itself indexes the rewards pending for the destination validators before it cuts the destination
+                        \* positions, whose co-delegators then gain: the outstanding index is taken after the step as well)
+                        rdsOf(k) == {h[2] : h \in {h \in DOMAIN pre.vals[k[2]].hist \cup DOMAIN Info(post, k[2]).hist : h[1] = k[3]}}
+                        idx(st, k, rd) == LET key == <<k[3], rd>> IN
+                                            BSub(IF key \in DOMAIN Info(st, k[2]).hist THEN Info(st, k[2]).hist[key] ELSE "0",
+                                                 IF key \in DOMAIN st.dels[k].hist THEN st.dels[k].hist[key] ELSE "0")
+                        out(k, rd) == BMax(idx(pre, k, rd), idx(post, k, rd))
+                        gain(k) == IF OrphanedTotal(post, k[3]) \/ OrphanedTotal(pre, k[3]) THEN RInt(post.assets[k[3]].total)
+                                   ELSE LET g == RSub(PosValueRat(post, k), PosValueRat(pre, k)) IN IF IsNeg(g[1]) THEN RZero ELSE g
+                        term(k, rd) == IF IsPos(out(k, rd)) THEN BAdd("1", RCeil(RMul(Rat(out(k, rd), ONE), gain(k)))) ELSE "0"
+                        rds == UNION {rdsOf(k) : k \in ks}
+                    IN  [rd \in {rd \in rds : \E k \in ks : rd \in rdsOf(k) /\ IsPos(out(k, rd))} |-> BSum({k \in ks : rd \in rdsOf(k)}, LAMBDA k : term(k, rd))]
       \* index updates of this step: (validator, alliance, reward denom) whose index grew
       upd == {<<v, k[1], k[2]>> : v \in DOMAIN post.vals \cap DOMAIN pre.vals, k \in {}} \cup
              UNION {{<<v, k[1], k[2]>> : k \in {k \in DOMAIN post.vals[v].hist : k \notin DOMAIN Info(pre, v).hist \/ Info(pre, v).hist[k] # post.vals[v].hist[k]}} : v \in DOMAIN post.vals}
@@ -372,6 +389,7 @@ GhostNext(gh, pre, rec, post, conforms) ==
                   IN  {x \in gh.zeroed \cup fresh : ZeroValued(post, x[1], x[2])},
        orphans |-> OrphansOf(gh, pre, post),
        eslack |-> EslackNext(gh, pre, rec, post),
+       k1 |-> CoinsAdd(gh.k1, k1add),
        \* lock-step (C18): once the re-imported sibling has diverged through a merged redelegation record (K4) it stays diverged
        diverged |-> IF rec.ev = "ForkImport" THEN ""
                     ELSE IF Len(rec.mirror) = 1 /\ MergedAny(gh.red) /\ ObsView(NormState(rec.mirror[1].post)) # ObsView(post) THEN "K4"
@@ -460,6 +478,19 @@ C06_Step(pre, rec, post, gh) ==
                                  /\ ((\A t \in targets : t[2] # k[2] \/ t[3] # k[3]) => Within(PosValueRat(post, k), RMul(g(k[3]), PosValueRat(pre, k)), tol(k))),
                           "position " \o ToString(k) \o " on another validator is not scaled by the common factor g")
           : k \in DOMAIN pre.dels}
+        \* nothing is destroyed: the positions of an asset are together worth what they were worth before (what a redelegation
+        \* destination loses goes to the other positions on its validator).  K8: if nobody else is delegated to that validator the
+        \* value stays behind on it without an owner
+        \cup UNION {
+          LET ks == {k \in DOMAIN pre.dels \cup DOMAIN post.dels : k[3] = a}
+              sumPre == RSumSet({k \in ks : k \in DOMAIN pre.dels}, LAMBDA k : PosValueRat(pre, k))
+              sumPost == RSumSet({k \in ks : k \in DOMAIN post.dels}, LAMBDA k : PosValueRat(post, k))
+              slack == BAdd("2", BSum(ks, LAMBDA k : TolMax(pre, post, k[2], a, "0")))
+              orphaning == \E t \in targets : t[3] = a /\ (OrphanedOnValidator(post, t[2], a) \/ OrphanedOnValidator(pre, t[2], a))
+          IN  IF OrphanedTotal(pre, a) \/ OrphanedTotal(post, a) \/ a \notin DOMAIN post.assets THEN {}
+              ELSE CheckK("C06", RLe(RSub(sumPre, RInt(slack)), sumPost), IF orphaning THEN "K8" ELSE "",
+                          "slash of " \o v \o ": the positions of " \o a \o " were worth " \o RFloor(sumPre) \o " before and " \o RFloor(sumPost) \o " after: value was destroyed, not redistributed")
+          : a \in as \cup {t[3] : t \in targets}}
 
 -----------------------------------------------------------------------------
 (* C07 redelegations: destination positions of pending redelegations out of the slashed validator *)
@@ -600,15 +631,17 @@ K2Resolution(s, rd) ==
                       \* and the value at the time of the claim need not be the value the reward was indexed with
                   IN  IF IsPos(out) THEN BAdd(CeilDiv(BMul(q, out), ONE), CeilDiv(BMul(out, s.assets[k[3]].total), BMul(ONE, ONE))) ELSE "0")
 PoolExplained(s, rec, gh) ==
-  IF gh.slashed THEN "K1"
-  ELSE IF \A rd \in DOMAIN s.bank.rewards \cup DOMAIN gh.k2 \cup UNION {{p.paid[i].a : i \in DOMAIN p.paid} : p \in ClaimProbes(rec)}
-                       \cup UNION {{k[2] : k \in DOMAIN s.vals[v].hist} : v \in DOMAIN s.vals} \cup UNION {DOMAIN Pending(s, v) : v \in DOMAIN s.env.vals} :
-             BLe(BMax(Shortfall(s, rec, rd), ModelShortfall(s, rd)),
-                 BAdd(BAdd(BAdd(Get(gh.k2, rd), K2Prospective(s, rd)), K2Resolution(s, rd)),
-                      \* ill-conditioned weight splits (a validator holding 10^-9 of an asset has its staked reward weight known to
-                      \* 10^-9 relative only): one part in 10^9 of what is at stake
-                      BQuo(BAdd(BAdd(Get(s.bank.rewards, rd), PendingIn(s, rd)), ModelClaimable(s, rd)), "1000000000"))) THEN "K2"
-  ELSE ""
+  LET rds == DOMAIN s.bank.rewards \cup DOMAIN gh.k2 \cup DOMAIN gh.k1 \cup UNION {{p.paid[i].a : i \in DOMAIN p.paid} : p \in ClaimProbes(rec)}
+             \cup UNION {{k[2] : k \in DOMAIN s.vals[v].hist} : v \in DOMAIN s.vals} \cup UNION {DOMAIN Pending(s, v) : v \in DOMAIN s.env.vals}
+      short(rd) == BMax(Shortfall(s, rec, rd), ModelShortfall(s, rd))
+      b2(rd) == BAdd(BAdd(BAdd(Get(gh.k2, rd), K2Prospective(s, rd)), K2Resolution(s, rd)),
+                     \* ill-conditioned weight splits (a validator holding 10^-9 of an asset has its staked reward weight known to
+                     \* 10^-9 relative only): one part in 10^9 of what is at stake
+                     BQuo(BAdd(BAdd(Get(s.bank.rewards, rd), PendingIn(s, rd)), ModelClaimable(s, rd)), "1000000000"))
+  IN  IF \A rd \in rds : BLe(short(rd), b2(rd)) THEN "K2"
+      \* K1: what the slashes on record can have added to the claims (gh.k1), on top of the rounding budget
+      ELSE IF gh.slashed /\ \A rd \in rds : BLe(short(rd), BAdd(b2(rd), Get(gh.k1, rd))) THEN "K1"
+      ELSE ""
 ProbeKF(s, rec, gh, p) ==
   IF p.errc = "funds" THEN PoolExplained(s, rec, gh)
   ELSE IF p.errc = "divzero" /\ p.kind = "delegate" /\ ZeroValued(s, p.v, p.a) /\ <<p.v, p.a>> \in gh.zeroed THEN "K3"
